@@ -156,60 +156,70 @@ def check_state(acc: Acc, db, model: Model, n: int, hist: List[Tuple], where: st
                     )
 
 
-def explore(acc: Acc, n: int, depth: int, first_ops: List[Tuple], where: str, states_out: Set[int]) -> None:
+def rebuild(n: int, hist):
     from comb_spec_searcher.equiv_db import EquivalenceDB
 
-    ops = ops_for(n)
-    db0 = EquivalenceDB()
-    m0 = Model()
-    hist0: List[Tuple] = []
-    for op in first_ops:
-        apply_real(db0, op)
-        m0 = m0.apply(op)
-        hist0.append(op)
-    seen: Set[int] = set()
-    frontier = [(db0, m0, hist0)]
-    k0 = hash((canon(db0), m0.key()))
-    seen.add(k0)
-    if not m0.dirty:
-        check_state(acc, db0, m0, n, hist0, where)
-    level = len(first_ops)
-    while frontier and level < depth:
-        nxt = []
-        for db, model, hist in frontier:
-            for op in ops:
-                d2 = clone(db)
-                try:
-                    apply_real(d2, op)
-                except Exception as e:  # noqa: BLE001
-                    acc.violation("exception", "EquivalenceDB." + {"v": "set_verified", "c": "connect_cycles", "t": "add_two_way_edge", "o": "add_one_way_edge"}[op[0]],
-                                  where, f"{type(e).__name__}: {e} after {hist + [op]}", {"n": n, "history": [list(o) for o in hist + [op]]})
-                    continue
-                acc.count("transitions")
-                m2 = model.apply(op)
-                key = hash((canon(d2), m2.key()))
-                if key in seen:
-                    continue
-                seen.add(key)
-                h2 = hist + [op]
-                if not m2.dirty:
-                    check_state(acc, d2, m2, n, h2, where)
-                    acc.nt(key)
-                nxt.append((d2, m2, h2))
-        frontier = nxt
-        level += 1
-    states_out |= seen
-    if frontier:
-        acc.sample({"labels": n, "depth": depth, "a_deepest_history": [list(o) for o in frontier[len(frontier) // 2][2]]})
+    db = EquivalenceDB()
+    model = Model()
+    for op in hist:
+        apply_real(db, op)
+        model = model.apply(op)
+    return db, model
 
 
-def _worker(arg) -> Acc:
-    n, depth, first = arg
+def _expand(arg):
+    """Expand a chunk of frontier states (given as histories)."""
+    n, hists = arg
     acc = Acc()
-    states: Set[int] = set()
-    explore(acc, n, depth, [tuple(o) for o in first], f"N={n}/D={depth}", states)
-    acc.notes["state_hashes"] = states
-    return acc
+    ops = ops_for(n)
+    where = f"N={n}"
+    out = []
+    local = set()
+    for hist in hists:
+        hist = [tuple(o) for o in hist]
+        db, model = rebuild(n, hist)
+        for op in ops:
+            d2 = clone(db)
+            try:
+                apply_real(d2, op)
+            except Exception as e:  # noqa: BLE001
+                acc.violation("exception", "EquivalenceDB." + {"v": "set_verified", "c": "connect_cycles", "t": "add_two_way_edge", "o": "add_one_way_edge"}[op[0]],
+                              where, f"{type(e).__name__}: {e} after {hist + [op]}", {"n": n, "history": [list(o) for o in hist + [op]]})
+                continue
+            acc.count("transitions")
+            m2 = model.apply(op)
+            key = hash((canon(d2), m2.key()))
+            if key in local:
+                continue
+            local.add(key)
+            h2 = hist + [op]
+            out.append((key, h2, (d2, m2)))
+    # queries are evaluated by whoever first produced the state in this chunk; the parent
+    # deduplicates globally, so a state may be evaluated by several chunks (harmless)
+    succ = []
+    for key, h2, (d2, m2) in out:
+        if not m2.dirty:
+            check_state(acc, d2, m2, n, h2, where)
+            acc.nt(key)
+        succ.append((key, h2))
+    if hists and len(hists[0]) % 2 == 1 and out:
+        acc.sample({"labels": n, "history": [list(o) for o in out[len(out) // 2][1]]})
+    return acc, succ
+
+
+def _expand_n(n):
+    def f(hists):
+        return _expand((n, hists))
+
+    return f
+
+
+class _Expander:
+    def __init__(self, n: int):
+        self.n = n
+
+    def __call__(self, hists):
+        return _expand((self.n, hists))
 
 
 def self_test() -> None:
@@ -220,7 +230,7 @@ def self_test() -> None:
 
 def run(ctx: Ctx) -> None:
     self_test()
-    plans = [(4, 5)] if ctx.quick else [(4, 7), (5, 5), (3, 9)]
+    plans = [(4, 6), (3, 8)] if ctx.quick else [(4, 7), (5, 6), (3, 10)]
     ctx.rule = (
         "breadth-first search over all histories of add-two-way-edge / add-one-way-edge / mark-verified / connect-cycles "
         "over N labels to depth D, deduplicated on the complete internal state of the real EquivalenceDB together with the "
@@ -229,17 +239,19 @@ def run(ctx: Ctx) -> None:
     )
     ctx.assumptions = ["reachability oracle mc/oracles.py:scc_partition", "labels <= 5, depth as stated"]
     ctx.bounds = {"plans": [{"labels": n, "depth": d} for n, d in plans]}
-    shards = []
+    total_states = 0
+    closed = {}
     for n, d in plans:
-        ops = ops_for(n)
-        if ctx.quick:
-            shards += [(n, d, [list(o)]) for o in ops]
-        else:
-            shards += [(n, d, [list(o1), list(o2)]) for o1 in ops for o2 in ops]
-    ctx.pmap(_worker, shards, chunksize=1)
-    hashes = ctx.acc.notes.pop("state_hashes", set())
-    ctx.acc.n["states"] = len(hashes)
+        from comb_spec_searcher.equiv_db import EquivalenceDB
+
+        db0 = EquivalenceDB()
+        k0 = hash((canon(db0), Model().key()))
+        check_state(ctx.acc, db0, Model(), n, [], f"N={n}")
+        total_states += ctx.bfs([(k0, [])], _Expander(n), d, chunk=300)
+        closed[f"N={n},D={d}"] = ctx.bfs_closed
+    ctx.acc.n["states"] = total_states
     ctx.acc.n["traces"] = ctx.acc.n.get("transitions", 0)
+    ctx.bounds["closed"] = closed
 
 
 def replay(acc: Acc, payload: dict) -> None:
